@@ -86,6 +86,11 @@ func (s *site) replay() map[string]any {
 }
 
 func (s *site) viol(sig, what string) {
+	if s.w.TwoSizesFullLast {
+		// the file names one blob with two part sizes, the full one last: reported per oracle
+		// class under a prefix of its own, without the recovery/phase tail (see world.go)
+		sig = "two-part-sizes/" + strings.TrimSuffix(sig, "/"+s.tail())
+	}
 	s.r.Violation(sig, fmt.Sprintf("[%s stage=%s k=%d] %s", s.w.Spec.ID, s.Stage, s.K, what), s.replay())
 }
 
@@ -148,7 +153,10 @@ func (s *site) checker(st blobserver.Storage, present map[blob.Ref][]byte, uncer
 
 // clientAudit is the client view of the statement: fetch, range fetch, stat, enumeration
 // (exactly once), stream (exactly once) and whole-file reads.
-func (s *site) clientAudit(ck *sto.Checker, rng *rand.Rand, wholeMust map[blob.Ref]bool) {
+//
+// It returns the whole-file refs that OpenWholeRef served (at every probed offset, with the
+// right bytes): a later restart of the same durable state must serve them again.
+func (s *site) clientAudit(ck *sto.Checker, rng *rand.Rand, wholeMust map[blob.Ref]bool) (served map[blob.Ref]bool) {
 	before := ck.Evals
 	ck.Audit(rng, false)
 	// range-fetch grid (over a seeded sample of the blobs for the very large files)
@@ -173,10 +181,10 @@ func (s *site) clientAudit(ck *sto.Checker, rng *rand.Rand, wholeMust map[blob.R
 	}
 	s.r.Eval(ck.Evals - before)
 	if ck.Dead {
-		return
+		return nil
 	}
 	s.streamAudit(ck)
-	s.wholeAudit(ck.S, rng, wholeMust)
+	return s.wholeAudit(ck.S, rng, wholeMust)
 }
 
 func (s *site) streamAudit(ck *sto.Checker) {
@@ -246,7 +254,8 @@ func (s *site) streamAudit(ck *sto.Checker) {
 }
 
 // wholeAudit: OpenWholeRef is either not-exist (pack incomplete) or exactly the file from off.
-func (s *site) wholeAudit(st blobserver.Storage, rng *rand.Rand, must map[blob.Ref]bool) {
+func (s *site) wholeAudit(st blobserver.Storage, rng *rand.Rand, must map[blob.Ref]bool) (servedRefs map[blob.Ref]bool) {
+	servedRefs = map[blob.Ref]bool{}
 	wf, ok := st.(blobserver.WholeRefFetcher)
 	if !ok {
 		s.viol("wholeref/unsupported/"+s.tail(), fmt.Sprintf("%T is no WholeRefFetcher", st))
@@ -267,7 +276,7 @@ func (s *site) wholeAudit(st blobserver.Storage, rng *rand.Rand, must map[blob.R
 		}
 		rng.Shuffle(len(cand), func(i, j int) { cand[i], cand[j] = cand[j], cand[i] })
 		offs = append(offs, cand[:4]...)
-		served, missing := 0, 0
+		served, missing, wrong := 0, 0, 0
 		for _, off := range offs {
 			if off < 0 || off > n {
 				continue
@@ -291,9 +300,13 @@ func (s *site) wholeAudit(st blobserver.Storage, rng *rand.Rand, must map[blob.R
 			}
 			switch {
 			case openErr == nil && readErr != nil:
+				wrong++
 				s.viol("wholeref/read-error/"+s.tail(), fmt.Sprintf("OpenWholeRef(%v,%d) opened, then reading failed after %d bytes: %v", f.WholeRef, off, got, readErr))
 			case openErr == nil:
 				served++
+				if size != n || !same {
+					wrong++
+				}
 				if size != n {
 					s.viol("wholeref/size/"+s.tail(), fmt.Sprintf("OpenWholeRef(%v,%d) reports whole size %d, file has %d", f.WholeRef, off, size, n))
 				}
@@ -303,11 +316,15 @@ func (s *site) wholeAudit(st blobserver.Storage, rng *rand.Rand, must map[blob.R
 			case errors.Is(openErr, os.ErrNotExist):
 				missing++
 				if must[f.WholeRef] {
-					s.viol("wholeref/missing/"+s.tail(), fmt.Sprintf("OpenWholeRef(%v,%d): not found, although the whole-file row of the pack had been written", f.WholeRef, off))
+					s.viol("wholeref/missing/"+s.tail(), fmt.Sprintf("OpenWholeRef(%v,%d): not found, although the whole-file row of the pack had been written (or the whole file was served before this restart)", f.WholeRef, off))
 				}
 			default:
+				wrong++
 				s.viol("wholeref/error/"+s.tail(), fmt.Sprintf("OpenWholeRef(%v,%d): %v", f.WholeRef, off, openErr))
 			}
+		}
+		if served > 0 && missing == 0 && wrong == 0 {
+			servedRefs[f.WholeRef] = true
 		}
 		if served > 0 {
 			s.r.Count("wholeref_served", 1)
@@ -316,6 +333,7 @@ func (s *site) wholeAudit(st blobserver.Storage, rng *rand.Rand, must map[blob.R
 			s.r.Count("wholeref_notexist", 1)
 		}
 	}
+	return servedRefs
 }
 
 // compareStream reads r to its end and compares it with want without buffering everything.
